@@ -37,6 +37,7 @@ template bool rkcommon::memory::operator==<c08inst::Base>(const rkcommon::memory
 template bool rkcommon::memory::operator!=<c08inst::Base>(const rkcommon::memory::IntrusivePtr<c08inst::Base> &, const rkcommon::memory::IntrusivePtr<c08inst::Base> &);
 template bool rkcommon::memory::operator< <c08inst::Base>(const rkcommon::memory::IntrusivePtr<c08inst::Base> &, const rkcommon::memory::IntrusivePtr<c08inst::Base> &);
 namespace c08inst { inline void use_default() { rkcommon::memory::IntrusivePtr<Base> x; (void)x; } }
+@@SEL@@
 static_assert(std::is_same<rkcommon::memory::Ref<c08inst::Base>, rkcommon::memory::IntrusivePtr<c08inst::Base>>::value, "Ref alias");
 static_assert(std::is_same<rkcommon::memory::RefCount, rkcommon::memory::RefCountedObject>::value, "RefCount alias");
 '''
@@ -50,7 +51,7 @@ def dump(repo, work, filt):
     os.makedirs(work, exist_ok=True)
     src = os.path.join(work, "c08_inst.cpp")
     with open(src, "w") as f:
-        f.write(INST)
+        f.write(INST.replace("@@SEL@@", SEL_TU))
     out = os.path.join(work, "ast_%s.json" % filt)
     cmd = ["clang++", "-std=c++11", "-I" + repo, "-fsyntax-only", "-Xclang", "-ast-dump=json",
            "-Xclang", "-ast-dump-filter=" + filt, src]
@@ -266,7 +267,7 @@ def classify(spec):
         elif k == "FunctionTemplateDecl":
             for d in inner(c):
                 if d.get("kind") == "CXXConstructorDecl" and any(x.get("kind") == "CompoundStmt" for x in inner(d)) \
-                        and "Derived" in d.get("type", {}).get("qualType", ""):
+                        and self_param_kind(param_of(d.get("type", {}).get("qualType", ""))) == "convcopy":
                     found["MConvCtor"] = d
         elif k == "CXXMethodDecl" and c.get("name") == "operator=" and not c.get("isImplicit"):
             ps = [p for p in inner(c) if p.get("kind") == "ParmVarDecl"]
@@ -450,6 +451,181 @@ def cmp_facts(repo, work, spec):
     return out
 
 
+# ------------------------------------------------------------------ declared members (closed list) and overload resolution
+IP_ORDER = ["DFieldPtr", "DDefCtor", "DDtor", "DCopyCtor", "DMoveCtor", "DConvCopyCtorT", "DRawCtor",
+            "DCopyAssign", "DMoveAssign", "DRawAssign", "DOpBool", "DOpStar", "DOpArrow"]
+RC_ORDER = ["DFieldCounter", "DRcDefCtor", "DRcVirtDtor", "DRcDeletedCopy", "DRefInc", "DRefDec", "DUseCount"]
+IGNORED_DECLS = {"AccessSpecDecl", "StaticAssertDecl", "FullComment", "TypeAliasDecl", "TypedefDecl", "UsingDecl",
+                 "ParagraphComment", "TextComment"}
+
+
+def param_of(qt):
+    """'R (P)' / 'R (P) const' -> P (single parameter text, '' if none)"""
+    a = qt.find("(")
+    b = qt.rfind(")")
+    return qt[a + 1:b].strip() if a >= 0 and b > a else "?"
+
+
+def self_param_kind(p):
+    """parameter text of a constructor / operator= of IntrusivePtr<T> (pattern or instantiation)"""
+    q = p.replace("rkcommon::memory::", "").replace(" ", "")
+    if q == "":
+        return "none"
+    if q in ("constIntrusivePtr<T>&", "constIntrusivePtr&", "constIntrusivePtr<c08inst::Base>&"):
+        return "copy"
+    if q in ("IntrusivePtr<T>&&", "IntrusivePtr&&", "IntrusivePtr<c08inst::Base>&&"):
+        return "move"
+    if q in ("T*const", "T*", "c08inst::Base*const", "c08inst::Base*"):
+        return "raw"
+    if q in ("constIntrusivePtr<O>&", "constIntrusivePtr<c08inst::Derived>&"):
+        return "convcopy"
+    return "other:" + q
+
+
+def members(ipdocs, rcdocs):
+    names = []       # human-readable, for the report
+    ip, rc = [], []
+    pat = None
+    for d in ipdocs:
+        if d.get("kind") == "ClassTemplateDecl" and d.get("name") == "IntrusivePtr":
+            recs = [c for c in inner(d) if c.get("kind") == "CXXRecordDecl"]
+            if recs:
+                pat = recs[0]
+    other = 0
+    for c in inner(pat) if pat else []:
+        k = c.get("kind")
+        if k in IGNORED_DECLS or c.get("isImplicit"):
+            continue
+        qt = c.get("type", {}).get("qualType", "")
+        tag = None
+        if k == "FieldDecl":
+            tag = "DFieldPtr" if c.get("name") == "ptr" else None
+        elif k == "CXXConstructorDecl":
+            tag = {"none": "DDefCtor", "copy": "DCopyCtor", "move": "DMoveCtor", "raw": "DRawCtor"}.get(self_param_kind(param_of(qt)))
+        elif k == "CXXDestructorDecl":
+            tag = "DDtor"
+        elif k == "FunctionTemplateDecl":
+            ds = [x for x in inner(c) if x.get("kind") in ("CXXConstructorDecl", "CXXMethodDecl", "CXXConversionDecl")]
+            if ds and ds[0].get("kind") == "CXXConstructorDecl" and \
+                    self_param_kind(param_of(ds[0].get("type", {}).get("qualType", ""))) == "convcopy":
+                tag = "DConvCopyCtorT"
+            qt = ds[0].get("type", {}).get("qualType", "") if ds else ""
+        elif k == "CXXMethodDecl":
+            nm = c.get("name")
+            if nm == "operator=":
+                tag = {"copy": "DCopyAssign", "move": "DMoveAssign", "raw": "DRawAssign"}.get(self_param_kind(param_of(qt)))
+            elif nm == "operator*" and param_of(qt) == "":
+                tag = "DOpStar"
+            elif nm == "operator->" and param_of(qt) == "":
+                tag = "DOpArrow"
+        elif k == "CXXConversionDecl":
+            tag = "DOpBool" if c.get("name") == "operator bool" else None
+        if tag is None:
+            tag = "DOther %d" % other
+            other += 1
+        ip.append(tag)
+        names.append("IntrusivePtr::%s %s -> %s" % (c.get("name"), qt, tag))
+    ndel = 0
+    rec = None
+    for d in rcdocs:
+        if d.get("kind") == "CXXRecordDecl" and d.get("name") == "RefCountedObject" and inner(d):
+            rec = d
+    for c in inner(rec) if rec else []:
+        k = c.get("kind")
+        if k in IGNORED_DECLS or c.get("isImplicit"):
+            continue
+        qt = c.get("type", {}).get("qualType", "")
+        tag = None
+        if c.get("explicitlyDeleted") and (k == "CXXConstructorDecl" or (k == "CXXMethodDecl" and c.get("name") == "operator=")):
+            ndel += 1
+            names.append("RefCountedObject::%s %s -> deleted" % (c.get("name"), qt))
+            continue
+        if k == "FieldDecl":
+            tag = "DFieldCounter" if c.get("name") == "refCounter" else None
+        elif k == "CXXConstructorDecl" and param_of(qt) == "":
+            tag = "DRcDefCtor"
+        elif k == "CXXDestructorDecl":
+            tag = "DRcVirtDtor" if c.get("virtual") else None
+        elif k == "CXXMethodDecl" and c.get("name") in ("refInc", "refDec", "useCount") and param_of(qt) == "":
+            tag = {"refInc": "DRefInc", "refDec": "DRefDec", "useCount": "DUseCount"}[c["name"]]
+        if tag is None:
+            tag = "DOther %d" % other
+            other += 1
+        rc.append(tag)
+        names.append("RefCountedObject::%s %s -> %s" % (c.get("name"), qt, tag))
+    if ndel:
+        rc.append("DRcDeletedCopy %d" % ndel)
+
+    def order(lst, ref):
+        key = lambda t: (ref.index(t.split()[0]) if t.split()[0] in ref else len(ref), t)
+        return sorted(lst, key=key)
+    return order(ip, IP_ORDER) + order(rc, RC_ORDER), names
+
+
+SEL_TU = r"""
+namespace c08sel {
+using B = rkcommon::memory::IntrusivePtr<c08inst::Base>;
+using D = rkcommon::memory::IntrusivePtr<c08inst::Derived>;
+void FDef() { B x; }
+void FCopyL(B &a) { B x(a); }
+void FMoveR(B &a) { B x(static_cast<B &&>(a)); }
+void FConvL(D &d) { B x(d); }
+void FConvR(D &d) { B x(static_cast<D &&>(d)); }
+void FConvTemp(c08inst::Derived *p) { B x = D(p); }
+void FRawC(c08inst::Base *p) { B x(p); }
+void FAssignL(B &a, B &b) { a = b; }
+void FAssignR(B &a, B &b) { a = static_cast<B &&>(b); }
+void FAssignRaw(B &a, c08inst::Base *p) { a = p; }
+void FAssignConvL(B &a, D &d) { a = d; }
+void FAssignConvR(B &a, D &d) { a = static_cast<D &&>(d); }
+}
+"""
+CTOR_METH = {"none": "MDefCtor", "copy": "MCopyCtor", "move": "MMoveCtor", "raw": "MRawCtor", "convcopy": "MConvCtor"}
+ASSIGN_METH = {"copy": "MCopyAssign", "move": "MMoveAssign", "raw": "MRawAssign"}
+
+
+def selection(repo, work):
+    """for every call form: the member clang's overload resolution selects (by its signature) and
+    how the argument reaches it"""
+    docs = dump(repo, work, "c08sel")
+    sel = {}
+    detail = {}
+    ns = [d for d in docs if d.get("kind") == "NamespaceDecl" and d.get("name") == "c08sel"]
+    for f in inner(ns[0]) if ns else []:
+        if f.get("kind") != "FunctionDecl":
+            continue
+        form = f.get("name")
+        ctors = []
+        assign = None
+        for n, _ in walk(f):
+            if n.get("kind") in ("CXXConstructExpr", "CXXTemporaryObjectExpr"):
+                res = n.get("type", {}).get("desugaredQualType") or n.get("type", {}).get("qualType", "")
+                ctors.append((res, param_of(n.get("ctorType", {}).get("qualType", "")), bool(n.get("elidable"))))
+            if n.get("kind") == "CXXOperatorCallExpr" and assign is None:
+                callee = strip(inner(n)[0])
+                if callee.get("referencedDecl", {}).get("name") == "operator=":
+                    assign = param_of(callee["referencedDecl"].get("type", {}).get("qualType", ""))
+        detail[form] = {"constructors": ctors, "assignment_param": assign}
+        bctors = [c for c in ctors if "Base" in c[0] and "Derived" not in c[0]]
+        if form.startswith("FAssign"):
+            m = ASSIGN_METH.get(self_param_kind(assign)) if assign is not None else None
+            if bctors:
+                v = CTOR_METH.get(self_param_kind(bctors[0][1]))
+                via = "(VTemp %s)" % v if v else "VUnknown"
+            else:
+                via = "VDirect"
+            sel[form] = (m, via)
+        elif form == "FConvTemp":
+            # B x = D(p): the constructor of B that takes the D temporary (the outer move of the B temporary is elidable)
+            cs = [c for c in bctors if "Derived" in c[1]]
+            sel[form] = (CTOR_METH.get(self_param_kind(cs[0][1])) if cs else None, "VDirect")
+        else:
+            cs = [c for c in bctors if not c[2]]
+            sel[form] = (CTOR_METH.get(self_param_kind(cs[0][1])) if cs else None, "VDirect")
+    sel["FDtorF"] = ("MDtor", "VDirect")
+    return sel, detail
+
+
 def extract(repo, work):
     docs = dump(repo, work, "IntrusivePtr")
     spec = [d for d in docs if d.get("kind") == "ClassTemplateSpecializationDecl" and d.get("name") == "IntrusivePtr"
@@ -484,10 +660,24 @@ def extract(repo, work):
         cmpf = {"c_eq": "CUnk", "c_ne": "CUnk", "c_lt": "CUnk", "a_bool": False, "a_arrow": False, "a_deref": False}
         notes.append("comparison facts: %r" % (ex,))
     info["cmp"] = cmpf
+    try:
+        mem, names = members(docs, rdocs)
+    except Exception as ex:
+        mem, names = ["DOther 0"], []
+        notes.append("member enumeration: %r" % (ex,))
+    info["members"] = mem
+    info["member_decls"] = names
+    try:
+        sel, detail = selection(repo, work)
+    except Exception as ex:
+        sel, detail = {}, {}
+        notes.append("overload selection: %r" % (ex,))
+    info["sel"] = {k: list(v) for k, v in sel.items()}
+    info["sel_detail"] = detail
     return table, rc, info, notes
 
 
-def coq_text(table, rc, cmpf=None):
+def coq_text(table, rc, cmpf=None, mem=None, sel=None):
     b = lambda x: "true" if x else "false"
     lines = ["(* GENERATED by props/C08/factgen.py from the working tree - do not edit, not under version control. *)",
              "From Coq Require Import List.", "From C08 Require Import Model.", "Import ListNotations.", "",
@@ -500,6 +690,16 @@ def coq_text(table, rc, cmpf=None):
                   "rc_atomic", "rc_init_one", "rc_inc_single", "rc_dec_single", "rc_dec_own_result", "rc_dec_deletes", "rc_use_load")),
               ""]
     cmpf = cmpf or {"c_eq": "CUnk", "c_ne": "CUnk", "c_lt": "CUnk", "a_bool": False, "a_arrow": False, "a_deref": False}
+    mem = mem if mem is not None else ["DOther 0"]
+    sel = sel or {}
+    forms = ["FDef", "FCopyL", "FMoveR", "FConvL", "FConvR", "FConvTemp", "FRawC", "FDtorF",
+             "FAssignL", "FAssignR", "FAssignRaw", "FAssignConvL", "FAssignConvR"]
+    lines += ["Definition gen_members : list mdecl :=", "  [%s]." % "; ".join(mem), "",
+              "Definition gen_sel (f : cform) : option meth * via :=", "  match f with"]
+    for f in forms:
+        m, v = sel.get(f, (None, "VUnknown"))
+        lines.append("  | %s => (%s, %s)" % (f, "Some %s" % m if m else "None", v))
+    lines += ["  end.", ""]
     lines += ["Definition gen_cmp : cmpfacts :=",
               "  mkCmp %s %s %s %s %s %s." % (cmpf["c_eq"], cmpf["c_ne"], cmpf["c_lt"], b(cmpf["a_bool"]), b(cmpf["a_arrow"]), b(cmpf["a_deref"])),
               ""]
@@ -538,7 +738,7 @@ def main(argv):
         else:
             i += 1
     table, rc, info, notes = extract(repo, work)
-    txt = coq_text(table, rc, info.get("cmp"))
+    txt = coq_text(table, rc, info.get("cmp"), info.get("members"), {k: tuple(v) for k, v in (info.get("sel") or {}).items()})
     if out:
         os.makedirs(os.path.dirname(os.path.abspath(out)), exist_ok=True)
         if not os.path.exists(out) or open(out).read() != txt:
